@@ -99,6 +99,6 @@ def clearRelB (x : Init) (a b : Nat) : Bool := x.within a b || decide (x.hi ≤ 
 def evsOKB (size : Nat) (prev : List Init) : List Ev → Bool
   | [] => true
   | .add i :: es => prev.all (fun o => lamB o i) && wfB size i && evsOKB size (prev ++ [i]) es
-  | .clear a b :: es => prev.all (fun o => clearRelB o a b) && evsOKB size prev es
+  | .clear a b :: es => prev.all (fun o => clearRelB o a b) && evsOKB size (prev.filter (fun o => !o.within a b)) es
 
 end CprocVerif.Image
